@@ -193,4 +193,10 @@ def run(c, facts):
     c.run(r1_text_panic, facts)
     c.run(lambda c: I.tag_rec(c, facts, c.rule('C04.R2', 'TAG-REC: occurs/unify/reduce cover every Tag variant that nests tags (finite types only)')))
     c.run(lambda c: I.occurs_before_union(c, facts, c.rule('C04.R3', 'occurs() dominates every union() on its false edge')))
+    import c01
+    c.run(lambda c: c01.r9_check_total(c, facts, rule='C04.R6'))
+    c.run(lambda c: c01.r10_args_agree(c, facts, rule='C04.R7'))
+    import c08
+    R8 = c.rule('C04.R8', 'GRAPH-COMPLETE: every use adds a dependency edge, so every cycle is seen (shared with C08.R2)')
+    c.shared(R8, c08.r2_pairing, 'C08.R2', facts)
     panic_census(c, facts)
